@@ -163,8 +163,8 @@ Qed.
 Lemma new_ptier_wf name l mn mx t : new_ptier name l mn mx = Ok t -> wf_ptier t.
 Proof.
   unfold new_ptier. set (l' := homog_p l).
-  destruct (zmin_list (map ptime l' ++ opt_list mn)) as [a|] eqn:Ea; [|discriminate].
-  destruct (zmax_list (map ptime l' ++ opt_list mx)) as [b|] eqn:Eb; [|discriminate].
+  destruct (zmin_list (map ptime l' ++ opt_list mn ++ opt_list mx)) as [a|] eqn:Ea; [|discriminate].
+  destruct (zmax_list (map ptime l' ++ opt_list mn ++ opt_list mx)) as [b|] eqn:Eb; [|discriminate].
   intros [= <-]. unfold wf_ptier; simpl. split; [|split; [|apply homog_p_stripped]].
   - apply wf_pents_pleb_sorted. apply isort_sorted; [apply pleb_total|apply pleb_trans].
   - apply zmin_list_spec in Ea as [_ Ha]. apply zmax_list_spec in Eb as [_ Hb].
